@@ -386,10 +386,25 @@ func ZZ_C19_HostMapKeys(sv *zzsv.T) {
 }
 
 func zzC19HostMapKeys(sv *zzsv.T) {
-	scripts := []string{"return Meta[1];", "return string(Meta);", "r = \"\"; foreach k, v in Meta { r = r + string(v); } return r;", "return keys(Meta);", "return string(Num) + Name;", "return len(Meta);"}
+	scripts := []string{"return Meta[1];", "return string(Meta);", "r = \"\"; foreach k, v in Meta { r = r + string(v); } return r;", "return keys(Meta);", "return string(Num) + Name;", "return len(Meta);",
+		// host maps that refer to each other (whatever the conversion makes of the cycle, it makes the same of it every time)
+		"return string(Num);", "a = Num[\"a\"]; b = Num[\"b\"]; return string(a) + \"|\" + string(b) + \"|\" + string(a[\"peer\"]);", "r = \"\"; foreach k, v in Num { r = r + k + string(len(v)); } return r;"}
 	src := scripts[sv.Choice("script", len(scripts))]
 	sv.Note("script", src)
+	k := 0
+	for i := range scripts {
+		if scripts[i] == src {
+			k = i
+		}
+	}
 	mk := func() *zzC19Meta {
+		if k >= 6 {
+			// (two entries per map: every order of every map is explored)
+			a := map[string]interface{}{"n": int64(1)}
+			b := map[string]interface{}{"n": int64(2)}
+			a["peer"], b["peer"] = b, a
+			return &zzC19Meta{Name: "n", Num: map[string]interface{}{"a": a, "b": b}}
+		}
 		return &zzC19Meta{Name: "n",
 			Meta: map[interface{}]interface{}{int(1): "from-int", int64(1): "from-int64", float32(0.5): "f32", float64(0.5): "f64", "1": "from-string"},
 			Num:  map[string]interface{}{"a": int64(1), "b": []interface{}{int(2), int64(2)}}}
